@@ -13,6 +13,17 @@ VARIABLE_SIZE = {"BeeColonyOptimization", "ForestOptimizationAlgorithm", "Imperi
 
 
 # ---- configurations harvested from the repository's own test files ---------------------------------------------------------------
+def _const(node):
+    """literal or constant arithmetic (partition=5.0 / 12.0)"""
+    try:
+        return ast.literal_eval(node)
+    except Exception:
+        if all(isinstance(n, (ast.Expression, ast.BinOp, ast.UnaryOp, ast.Constant, ast.operator, ast.unaryop, ast.List, ast.Tuple,
+                              ast.Load)) for n in ast.walk(node)):
+            return eval(compile(ast.Expression(node), "<cfg>", "eval"), {"__builtins__": {}})
+        raise
+
+
 def harvest_configs():
     """{optimizer class name: (config class name, kwargs)} from tests/algorithms/test_*.py (AST, literal kwargs)"""
     out = {}
@@ -25,7 +36,7 @@ def harvest_configs():
         for node in ast.walk(tree):
             if isinstance(node, ast.Call) and isinstance(node.func, ast.Name) and node.func.id.endswith("Config"):
                 try:
-                    kw = {k.arg: ast.literal_eval(k.value) for k in node.keywords if k.arg}
+                    kw = {k.arg: _const(k.value) for k in node.keywords if k.arg}
                 except Exception:
                     continue
                 cfg = (node.func.id, kw)
